@@ -122,7 +122,11 @@ impl Semaphore {
     /// Otherwise, this returns a [`OwnedSemaphorePermit`] representing the
     /// acquired permit.
     pub async fn acquire_many_owned(self: Arc<Self>, permits: u32) -> Result<OwnedSemaphorePermit, AcquireError> {
-        self.sem.acquire(permits as usize).await?;
+        if permits == 0 && !self.sem.is_closed() {
+            // tokio hands out an empty permit; BatchSemaphore asserts num_permits > 0
+            return Ok(OwnedSemaphorePermit { sem: self, permits });
+        }
+        self.sem.acquire(permits.max(1) as usize).await?;
         Ok(OwnedSemaphorePermit { sem: self, permits })
     }
 
@@ -145,6 +149,13 @@ impl Semaphore {
     /// Otherwise, this returns a [`OwnedSemaphorePermit`] representing the
     /// acquired permit.
     pub fn try_acquire_many_owned(self: Arc<Self>, permits: u32) -> Result<OwnedSemaphorePermit, TryAcquireError> {
+        if permits == 0 {
+            return if self.sem.is_closed() {
+                Err(TryAcquireError::Closed)
+            } else {
+                Ok(OwnedSemaphorePermit { sem: self, permits })
+            };
+        }
         match self.sem.try_acquire(permits as usize) {
             Ok(()) => Ok(OwnedSemaphorePermit { sem: self, permits }),
             Err(e) => Err(e),
